@@ -276,6 +276,54 @@ Theorem C08_cascade_value_total :
 Proof. exact cascade_value_total. Qed.
 Print Assumptions C08_cascade_value_total.
 
+(* ---- every element, the ROOT included (cascade_value_at: `parent = None` is the nil
+   c.parentStyle of the root element; reading it is `Panic 2`) ---- *)
+
+(* an element with a parent style: cascade_value, the statements above *)
+Theorem C08_cascade_value_at_nonroot :
+  forall known validate pc oe inherited initial_value parent_value fuel e key casc,
+    cascade_value_at known validate pc oe inherited initial_value (Some parent_value) fuel e key casc
+    = cascade_value known validate pc oe inherited initial_value parent_value fuel e key casc.
+Proof. exact cascade_value_at_nonroot. Qed.
+Print Assumptions C08_cascade_value_at_nonroot.
+
+(* the root element inherits the initial values: same function with the initial values for
+   the parent's, in every branch (declared inherit, default of an inherited property,
+   `inherit` produced by a var() substitution, invalid pending value) *)
+Theorem C08_cascade_value_at_root :
+  forall known validate pc oe inherited initial_value fuel e key casc,
+    cascade_value_at known validate pc oe inherited initial_value None fuel e key casc
+    = cascade_value known validate pc oe inherited initial_value initial_value fuel e key casc.
+Proof. exact cascade_value_at_root. Qed.
+Print Assumptions C08_cascade_value_at_root.
+
+(* `html { --v: inherit; color: var(--v) }` = `html { color: inherit }` = the initial value *)
+Theorem C08_root_substituted_inherit_is_initial :
+  forall known validate pc oe inherited initial_value fuel e key sh raw,
+    pending_value known validate pc oe fuel e key sh raw = Ok (Some VInherit) ->
+    cascade_value_at known validate pc oe inherited initial_value None fuel e key (Some (VRaw raw, sh))
+      = Ok (finalize initial_value initial_value key (initial_value key)) /\
+    cascade_value_at known validate pc oe inherited initial_value None fuel e key (Some (VRaw raw, sh))
+      = cascade_value_at known validate pc oe inherited initial_value None fuel e key (Some (VInherit, sh)).
+Proof. exact root_substituted_inherit_is_initial. Qed.
+Print Assumptions C08_root_substituted_inherit_is_initial.
+
+Theorem C08_pending_invalid_falls_back_root :
+  forall known validate pc oe inherited initial_value fuel e key sh raw,
+    pending_value known validate pc oe fuel e key sh raw = Ok None ->
+    cascade_value_at known validate pc oe inherited initial_value None fuel e key (Some (VRaw raw, sh))
+    = Ok (finalize initial_value initial_value key (initial_value key)).
+Proof. exact root_pending_invalid_falls_back. Qed.
+Print Assumptions C08_pending_invalid_falls_back_root.
+
+(* no panic (no nil parent dereference), no divergence, for the root and for every other element *)
+Theorem C08_cascade_value_at_total :
+  forall known validate pc oe inherited initial_value parent e key casc fuel,
+    (forall raw sh t, casc = Some (VRaw raw, sh) -> In t raw -> fuel_bound e t <= fuel) ->
+    exists v, cascade_value_at known validate pc oe inherited initial_value parent fuel e key casc = Ok v.
+Proof. exact cascade_value_at_total. Qed.
+Print Assumptions C08_cascade_value_at_total.
+
 (* ---- the hypotheses are inhabited / the definitions compute ---- *)
 
 Module Examples.
